@@ -37,8 +37,11 @@ func c15Differential(r *R) {
 	if r.Failed() {
 		return
 	}
+	// the reason of a Kill is free text: a word, nothing, an error chain, text in any script - of any length
+	reasons := []string{"c15", "", strings.Repeat("r", 255), strings.Repeat("r", 256), "wrapped: " + strings.Repeat("caused by: connection reset by peer; ", 32), strings.Repeat("终止原因", 23)}
+	killReason := reasons[r.Choose(len(reasons))]
 	r.Count("op:" + c15Ops[op])
-	r.Sample(map[string]any{"operation": c15Ops[op], "user_codec": codec})
+	r.Sample(map[string]any{"operation": c15Ops[op], "user_codec": codec, "kill_reason_bytes": len(killReason)})
 	var mu sync.Mutex
 	outcome := map[string][]string{} // "local"/"remote" -> observations
 	obs := func(where, what string) {
@@ -84,7 +87,7 @@ func c15Differential(r *R) {
 						ctx.Reply(vivid.ErrorIllegalArgument.WithMessage("target says no"))
 					}
 				case *vivid.OnKill:
-					obs(where, fmt.Sprintf("target-saw-OnKill poison=%v killer-set=%v", m.Poison, m.Killer != nil))
+					obs(where, fmt.Sprintf("target-saw-OnKill poison=%v killer-set=%v reason-bytes=%d", m.Poison, m.Killer != nil, len(m.Reason)))
 				}
 			}), vivid.WithActorName(name))
 		})
@@ -145,9 +148,9 @@ func c15Differential(r *R) {
 						}
 					})
 				case 2:
-					ctx.Kill(tref, false, "c15")
+					ctx.Kill(tref, false, killReason)
 				case 3:
-					ctx.Kill(tref, true, "c15")
+					ctx.Kill(tref, true, killReason)
 				case 4, 5:
 					ctx.Watch(tref)
 					if op == 5 {
@@ -222,7 +225,7 @@ func c15Differential(r *R) {
 				case 10:
 					a.Sys.Tell(tref, newRMsg("op", 10, 64, 0))
 				case 11:
-					a.Sys.Kill(tref, false, "c15")
+					a.Sys.Kill(tref, false, killReason)
 				case 12:
 					// the target asks back: a reply must reach an asker on another node as well
 					f := ctx.Ask(tref, newRMsg("op", 12, 10, 1), 5*time.Second)
